@@ -1,6 +1,6 @@
 (* C12 property theorems only (on the unit-phase LTS of Model_C11). *)
 From Coq Require Import List NArith Bool Arith.
-From Verif Require Import C11.Model_C11 C11.Proofs_C11 C12.Proofs_C12.
+From Verif Require Import C11.Model_C11 C11.Proofs_C11 C12.Proofs_C12 C12.Gen_C12 C12.GenProofs_C12.
 Import ListNotations.
 
 (* After a stop request (or the failure limit) at most one further request per worker is sent:
@@ -25,6 +25,20 @@ Theorem C12_later_phases_skipped_with_reason : forall p phases stop0,
          (plan_loop p phases stop0 true).
 Proof. exact plan_skips_after_limit. Qed.
 Print Assumptions C12_later_phases_skipped_with_reason.
+
+(* The functions regenerated from today's Python source (engine/control.py: count_failure, is_stopped;
+   engine/__init__.py: _STATUS_ORDER) are the ones the model uses. *)
+Theorem C12_gen_count_failure_eq : forall c n l, gen_count_failure (maxf c) n l = count_failure c n l.
+Proof. exact gen_count_failure_eq. Qed.
+Print Assumptions C12_gen_count_failure_eq.
+
+Theorem C12_gen_is_stopped_eq : forall s, gen_is_stopped (stop s) (limit s) = has_to_stop s.
+Proof. exact gen_is_stopped_eq. Qed.
+Print Assumptions C12_gen_is_stopped_eq.
+
+Theorem C12_gen_srank_eq : forall s, gen_srank s = srank s.
+Proof. exact gen_srank_eq. Qed.
+Print Assumptions C12_gen_srank_eq.
 
 (* both bounds are attained (sharpness / non-vacuity) *)
 Theorem C12_sends_bound_is_reached :
